@@ -36,7 +36,7 @@ func ruleC09_3(c *Ctx) {
 		c.examined(len(fn.Blocks))
 		n := 0
 		for _, call := range p.callsIn(fn, bw) {
-			gs := guardsAt(call.Block())
+			gs := guardsOf(call)
 			// only the spills made after the buffer was found empty need arming
 			wasEmpty := guardHas(gs, func(g Guard) bool { _, is := p.isCallTo(g.Cond, isEmpty); return is && g.Truth })
 			if !wasEmpty {
@@ -68,7 +68,7 @@ func ruleC09_3(c *Ctx) {
 		addW := p.Method(pkgNetpoll, "Poller", "AddWrite")
 		okA := false
 		for _, call := range p.callsIn(open, addW) {
-			if guardHas(guardsAt(call.Block()), func(g Guard) bool { _, is := p.isCallTo(g.Cond, isEmpty); return is && !g.Truth }) {
+			if guardHas(guardsOf(call), func(g Guard) bool { _, is := p.isCallTo(g.Cond, isEmpty); return is && !g.Truth }) {
 				okA = true
 			}
 		}
@@ -79,7 +79,7 @@ func ruleC09_3(c *Ctx) {
 		modR := p.Method(pkgNetpoll, "Poller", "ModRead")
 		okD := true
 		for _, call := range p.callsIn(w, modR) {
-			if !guardHas(guardsAt(call.Block()), func(g Guard) bool { _, is := p.isCallTo(g.Cond, isEmpty); return is && g.Truth }) {
+			if !guardHas(guardsOf(call), func(g Guard) bool { _, is := p.isCallTo(g.Cond, isEmpty); return is && g.Truth }) {
 				okD = false
 			}
 		}
@@ -401,7 +401,7 @@ func ruleC16_5(c *Ctx) {
 	own := false
 	var at ssa.Instruction
 	for _, w := range p.fieldWrites(timeoutF) {
-		if outermost(w.Fn) != push {
+		if homeFn(w.Fn) != push {
 			continue
 		}
 		at = w.Instr
@@ -444,7 +444,7 @@ func ruleC15_6(c *Ctx) {
 				return
 			}
 			n++
-			gs := guardsAt(in.Block())
+			gs := guardsOf(in)
 			okG := guardHas(gs, func(g Guard) bool {
 				x, op, y, ok := cmpGuard(g)
 				if !ok || op != token.NEQ || !isNilConst(y) {
